@@ -21,11 +21,11 @@ def run(repo, chk):
                        'is placed only when both pieces exist; TYPESTATE: a region list handed to assign_lines_to_regions is fresh or cleared on every path, loops to fixpoint.')
     chk.note_undecided('"wholly inside => placed unchanged" (shapely numerics)')
     R = Rules(repo, chk)
-    refcheck.run_all(R, repo, chk, 'RECUR', 'assign_ref.py', WHAT, skip=('merge_lines', 'filter_list'))
+    refcheck.run_all(R, repo, chk, 'RECUR', 'assign_ref.py', WHAT)
     R.run('ATOMS', atoms, repo, chk)
     R.run('PROV', prov, repo, Soft(chk), soft_for=[H + ':assign_lines_to_regions'])
     R.run('TYPESTATE', typestate, repo, chk)
-    chk.expect('RECUR', 4)
+    chk.expect('RECUR', 6)
     chk.expect('ATOMS', 5)
     chk.expect('PROV', 4)
     chk.expect('TYPESTATE', 3)
